@@ -323,6 +323,64 @@ pub fn decode_in_worker_mode(ty: usize, bytes: &[u8], script: Option<&[ReadOp]>,
 
 // ---------------------------------------------------------------- cases
 
+/// A sequence of `count` valid elements (the same well-formed element repeated) behind a length
+/// prefix that is true or lies.
+fn bigvec(o: &mut Outcome, case: &Value) {
+    let tyname = case["ty"].as_str().unwrap_or("");
+    let ty = registry().index(tyname);
+    let entry = &registry().types[ty];
+    let count = case["count"].as_u64().unwrap_or(0);
+    let mut sch = Sched::new(case["hseed"].as_u64().unwrap_or(0), "c16/bigvec");
+    let elem: Vec<u8> = match tyname {
+        "Vec<Scalar>" => crate::refc::scb(&crate::refc::rand_scalar(&mut sch)).to_vec(),
+        "Vec<G1>" => crate::refc::g1b(&crate::refc::rand_g1(&mut sch)).to_vec(),
+        "Vec<G2>" => crate::refc::g2b(&crate::refc::rand_g2(&mut sch)).to_vec(),
+        _ => crate::harness_error("C16 bigvec: unknown element type"),
+    };
+    let prefix: u64 = match case["prefix"].as_str().unwrap_or("n") {
+        "n" => count,
+        "n+1" => count + 1,
+        "2^32" => 1 << 32,
+        "2^60" => 1 << 60,
+        _ => u64::MAX,
+    };
+    let mut bytes = prefix.to_le_bytes().to_vec();
+    for _ in 0..count {
+        bytes.extend_from_slice(&elem);
+    }
+    o.events = 1;
+    o.bump("fault.wire.long-sequence");
+    let site = format!("decode/{}/long-sequence", tyname);
+    // the decoded vector itself may take count * size_of::<element>() (with doubling growth)
+    let bound = 4 * (count + 1) * 288 + 64 * bytes.len() as u64 + SLACK as u64;
+    let _ = entry;
+    match decode_in_worker(ty, &bytes, None) {
+        Decoded::Ok { max_alloc, .. } => {
+            if prefix != count {
+                o.violate("decode-accepts-lying-length", &site, format!("{} elements behind the length prefix {} decode", count, prefix));
+            }
+            if max_alloc > bound {
+                o.violate("over-allocation", &site, format!("largest single allocation request {} bytes for {} input bytes (bound {})", max_alloc, bytes.len(), bound));
+            }
+            o.bump("probe.long_sequence_decoded");
+        }
+        Decoded::Err { max_alloc, .. } => {
+            if prefix == count {
+                o.violate("valid-long-sequence-refused", &site, format!("{} valid elements behind their true length are refused", count));
+            }
+            if max_alloc > bound {
+                o.violate("over-allocation", &site, format!("largest single allocation request {} bytes for {} input bytes with length prefix {} (bound {})", max_alloc, bytes.len(), prefix, bound));
+            }
+            o.bump("probe.long_sequence_refused");
+        }
+        Decoded::Panic { loc, msg } => o.violate("decode-panic", &loc, format!("decoder panicked on {} valid elements behind the length prefix {}: {}", count, prefix, msg)),
+        Decoded::Died { how } => o.violate("decode-abort", &site, format!("worker process died on {} valid elements behind the length prefix {} ({})", count, prefix, how)),
+    }
+    o.nontrivial = prefix != count;
+    o.shape = mix(&[0xB16, ty as u64, count, prefix]);
+    o.log_hash = mix(&[o.shape, o.violations.len() as u64]);
+}
+
 fn sample_by(case: &Value) -> (&'static harvest::Sample, usize) {
     let seed = case["hseed"].as_u64().unwrap_or(0);
     let stream = case["stream"].as_u64().unwrap_or(0);
@@ -665,6 +723,19 @@ impl Prop for C16 {
                         }
                     }
                 }
+                // several atoms at once: every byte-string atom of one length gets the same kind
+                // of substitute (all generators the identity, all scalars q, ...)
+                for alen in [32usize, 48, 96] {
+                    if s.trace.atoms.iter().filter(|a| a.kind == AtomKind::Bytes && a.len == alen).count() < 2 {
+                        continue;
+                    }
+                    for sub in mutate::substitutes_for(AtomKind::Bytes, alen) {
+                        if big && tier == Tier::Quick && sub != "identity" && sub != "q" && sub != "zero" {
+                            continue;
+                        }
+                        v.push(mk(json!({"k": "allatoms", "len": alen, "sub": sub, "r": mix(&[seed, si as u64, alen as u64])}), Value::Null));
+                    }
+                }
                 // truncation through a reader that hits EOF, extension, random strings, bit flips
                 let len = s.trace.bytes.len();
                 v.push(mk(json!({"k": "trunc", "at": sch.usize(len.max(1))}), json!([["short", 5], ["short", 1]])));
@@ -688,6 +759,18 @@ impl Prop for C16 {
                 }
             }
         }
+        // long sequences: more than a mebibyte of VALID elements behind a true or a lying length
+        // prefix (a decoder that caps its first allocation but trusts the prefix once the cap is
+        // reached is only seen with that much real data)
+        for (ty, per) in [("Vec<Scalar>", 32usize), ("Vec<G1>", 144), ("Vec<G2>", 288)] {
+            let count = (1usize << 20) / per + 1 + sch.usize(64);
+            for prefix in ["n", "n+1", "2^32", "2^60", "2^64-1"] {
+                if tier == Tier::Quick && ty != "Vec<Scalar>" && prefix != "2^60" && prefix != "n" {
+                    continue;
+                }
+                v.push(json!({"f": "bigvec", "ty": ty, "count": count, "prefix": prefix, "hseed": seed}));
+            }
+        }
         CaseSet { enumerated: v, random: 0, exhaustive: false }
     }
     fn random_case(&self, _tier: Tier, seed: u64, idx: usize) -> Value {
@@ -695,6 +778,10 @@ impl Prop for C16 {
     }
     fn run(&self, case: &Value) -> Outcome {
         let mut o = Outcome::default();
+        if case["f"] == "bigvec" {
+            bigvec(&mut o, case);
+            return o;
+        }
         let (s, ty) = sample_by(case);
         let entry = &registry().types[ty];
         let m = &case["m"];
@@ -796,6 +883,9 @@ impl Prop for C16 {
     }
     fn shrink(&self, case: &Value) -> Vec<Value> {
         let mut v = Vec::new();
+        if case["f"] == "bigvec" {
+            return v;
+        }
         if !case["read"].is_null() {
             let mut c = case.clone();
             c["read"] = Value::Null;
@@ -819,6 +909,6 @@ impl Prop for C16 {
         ]
     }
     fn required_probes(&self, _tier: Tier) -> Vec<&'static str> {
-        vec!["probe.decoded_ok", "probe.decode_refused", "fault.read.short", "fault.read.eintr", "fault.read.eof", "fault.read.error", "fault.wire.seqlen", "fault.wire.trunc", "fault.json.string", "fault.json.number", "probe.json_decode_returned"]
+        vec!["probe.decoded_ok", "probe.decode_refused", "fault.read.short", "fault.read.eintr", "fault.read.eof", "fault.read.error", "fault.wire.seqlen", "fault.wire.trunc", "fault.json.string", "fault.json.number", "probe.json_decode_returned", "fault.wire.allatoms", "fault.wire.long-sequence", "probe.long_sequence_decoded", "probe.long_sequence_refused"]
     }
 }
